@@ -26,7 +26,7 @@ import (
 var allCurves = []ecc.ID{ecc.BN254, ecc.BLS12_377, ecc.BLS12_381, ecc.BW6_761, ecc.BLS24_315, ecc.BLS24_317, ecc.BW6_633}
 
 func curvesFor(o *Opts) []ecc.ID {
-	if o.Thorough() {
+	if o.AllCurves() {
 		return allCurves
 	}
 	return allCurves[:4]
